@@ -22,7 +22,7 @@ def writeDataList : List Bytes → Step Unit
 def rawCopyOptions (src : FileData) : FileOptions :=
   { method := src.method, level := none, time := src.time, permissions := src.unixMode,
     largeFile := (if src.compressedSize ≥ src.uncompressedSize then src.compressedSize
-                  else src.uncompressedSize) > ZIP64_BYTES_THR,
+                  else src.uncompressedSize) ≥ ZIP64_BYTES_THR,
     encryptWith := none }
 
 /-- `raw_copy_file_rename`: `src` is the source entry's metadata, `chunks` what the successive `read` calls of
